@@ -171,6 +171,23 @@ def _c01_released_unread_will_close(f: Failure) -> bool:
     )
 
 
+# ---------------------------------------------------------------------------------- C03 -------
+@finding("C03", "released-unread-response-collected-connection-reused")
+def _c03_released_unread_collected(f: Failure) -> bool:
+    """release_conn() on a response whose body was not read to the end returns the connection to the pool; the only
+    guard against reusing it is http.client's ResponseNotReady while the old response object is alive.  Once that object
+    has been garbage collected the connection looks idle, and if the rest of the old body is still on its way (nothing
+    readable at checkout) the next request is sent on it and the old bytes are read as its response."""
+    o = f["observed"] or {}
+    p = o.get("prev_on_conn") or {}
+    return (
+        f["kind"] in ("answered-on-unclean-connection", "foreign-bytes-delivered", "foreign-status-delivered")
+        and p.get("caller") in ("release-unread", "read-part-release", "read-late-prefix")
+        and p.get("response_alive_at_arrival") is False
+        and p.get("unclean_before") is True
+    )
+
+
 # ---------------------------------------------------------------------------------- C07 -------
 @finding("C07", "cert-reqs-override-rewrites-shared-caller-context")
 def _c07_shared_context(f: Failure) -> bool:
